@@ -182,7 +182,8 @@ Rmdirat(fs, d, name) ==
 
 \* renameat2(sd, sn, dd, dn, flags) with flags in {"", "NOREPLACE", "EXCHANGE"}
 Renameat(fs, sd, sn, dd, dn, flag) ==
-    IF ~IsDir(fs, sd) \/ ~IsDir(fs, dd) THEN [res |-> Err("ENOTDIR"), fs |-> fs]
+    IF flag = "INVALID" THEN [res |-> Err("EINVAL"), fs |-> fs]      \* unknown bits, or NOREPLACE together with EXCHANGE: refused before any lookup
+    ELSE IF ~IsDir(fs, sd) \/ ~IsDir(fs, dd) THEN [res |-> Err("ENOTDIR"), fs |-> fs]
     ELSE IF sn \in {".", ".."} THEN [res |-> Err("EBUSY"), fs |-> fs]
     ELSE IF dn \in {".", ".."} THEN [res |-> Err(IF flag = "NOREPLACE" THEN "EEXIST" ELSE "EBUSY"), fs |-> fs]
     ELSE IF ~HasChild(fs, sd, sn) THEN [res |-> Err("ENOENT"), fs |-> fs]
